@@ -141,4 +141,76 @@ def wfL : List Tree → Bool
   | t :: r => nameOk t.name && t.wf && wfL r
 end
 
+/-! ## the command line: `-i <str>` (cli/cmdlineparser.cpp, `CmdLineParser::parseFromArgs`) -/
+
+/-- `Path::removeQuotationMarks` -/
+def removeQuotationMarks (p : Str) : Str := p.filter (· != '"')
+
+/-- what `parseFromArgs` does to every collected `-i` value after the argument loop:
+    `path = Path::removeQuotationMarks(path); path = Path::fromNativeSeparators(path);` -/
+def normalizeIgnored (p : Str) : Str := fromNativeSeparators (removeQuotationMarks p)
+
+/-- the argument loop restricted to `-i <str>`, `-i<str>` and path names (`argv[1..]`): the `-i` values as written
+    (empty ones are dropped) and the path names; `none` = `Result::Fail` ("argument to '-i' is missing") or an
+    option outside this model -/
+def splitArgs : List Str → Option (List Str × List Str)
+  | [] => some ([], [])
+  | a :: rest =>
+    if hd a != '-' then (splitArgs rest).map (fun r => (r.1, normalizeIgnored a :: r.2))
+    else if a == ['-', 'i'] then
+      match rest with
+      | [] => none
+      | v :: rest' =>
+        if hd v == '-' then none
+        else (splitArgs rest').map (fun r => (if v.isEmpty then r.1 else v :: r.1, r.2))
+    else if ['-', 'i'].isPrefixOf a then (splitArgs rest).map (fun r => (a.drop 2 :: r.1, r.2))
+    else none
+
+/-- `mIgnoredPaths` / `mPathNames` after `parseFromArgs`; `none`: `Result::Fail` (also "no C or C++ source files found") -/
+def parseIgnoreArgs (args : List Str) : Option (List Str × List Str) :=
+  match splitArgs args with
+  | none => none
+  | some (ig, pn) => if pn.isEmpty then none else some (ig.map normalizeIgnored, pn)
+
+/-! ### the documented rule for an ignore pattern as the user wrote it -/
+
+/-- both separators count on the command line -/
+def isSepU (c : Char) : Bool := c == '/' || c == '\\'
+
+/-- "If a pattern looks like a relative path, i.e. is '.' or '..', or starts with '.' or '..' followed by a path
+    separator": decided on the text the user wrote (quotation marks dropped) -/
+def relativeU (q : Str) : Bool :=
+  q == ['.'] || q == ['.', '.'] ||
+  (cat q 0 == '.' && isSepU (cat q 1)) || (cat q 0 == '.' && cat q 1 == '.' && isSepU (cat q 2))
+
+/-- "If a pattern looks like an absolute path": it starts with a separator -/
+def absoluteU (q : Str) : Bool := isSepU (cat q 0)
+
+/-- "If a pattern ends with a path separator before canonicalization …" -/
+def dirPatternU (q : Str) : Bool := isSepU (q.getLastD NUL)
+
+/-- the canonical pattern: separators unified, a relative pattern resolved against the current directory -/
+def canonPatternU (q cwd : Str) : Str :=
+  if relativeU q then canonOf .unix cwd (fromNativeSeparators q) else canonOf .unix (fromNativeSeparators q) []
+
+/-- the rule list of pathmatch.h / the manual for `-i <u>`, every decision taken on the user's text `u` -/
+def UserIgnoreSpec (mode : Filemode) (u path cwd : Str) : Prop :=
+  let q := removeQuotationMarks u
+  q ≠ [] ∧
+    (((dirPatternU q && mode != .directory) = false ∧ fromNativeSeparators q = path) ∨
+     SpecMatch (absoluteU q || relativeU q) (canonPatternU q cwd)
+      (if dirPatternU q && mode != .directory then parentOf (canonPath .unix path cwd) else canonPath .unix path cwd))
+
+/-- executable form -/
+def userIgnoreSpecB (mode : Filemode) (u path cwd : Str) : Bool :=
+  let q := removeQuotationMarks u
+  !q.isEmpty &&
+    ((!(dirPatternU q && mode != .directory) && fromNativeSeparators q == path) ||
+     specMatchB (absoluteU q || relativeU q) (canonPatternU q cwd)
+      (if dirPatternU q && mode != .directory then parentOf (canonPath .unix path cwd) else canonPath .unix path cwd))
+
+/-- the ignore test `cppcheck -i u₁ -i u₂ … <paths>` applies during the traversal (current directory `cwd`) -/
+def cliIgnored (us : List Str) (cwd : Str) (path : Str) (mode : Filemode) : Bool :=
+  pathMatchList .fixed .unix (us.map normalizeIgnored) cwd path mode
+
 end Cppcheck.FileLister
